@@ -261,14 +261,17 @@ def gen_layout(sp, L, W, first=None, second=None, tied_loose=False, two_step=Fal
             check_iso(sp, d2["game_" + variant], ref_game(variant, L, W, moves, loose, rewards, pt, pr, pl), variant + " (second write after an in-place edit)")
 
 
-@harness("gen.manual_layout", props=["C11", "C08"], jobs=lambda tier, seed: [dict(L=L, W=W) for (L, W) in ((1, 1), (1, 2), (2, 1))],
+@harness("gen.manual_layout", props=["C11", "C08"],
+         jobs=lambda tier, seed: [dict(L=L, W=W, float_rewards=f) for (L, W) in ((1, 1), (1, 2), (2, 1)) for f in (False, True)],
          covers=["written"], stubs=["open -> in-memory file", "int -> identity on symbolic ints", "repr -> identifier"],
          bounds="manual entry point on every board with <= 2 tiles (all arrow/loose layouts, rewards concrete 0..2 pattern), symbolic probabilities",
          desc="real create_sg_from_board -> write_robots -> reader: same isomorphism and well-formedness as gen.layout")
-def gen_manual_layout(sp, L, W):
+def gen_manual_layout(sp, L, W, float_rewards=False):
     gen, cr, board = mods()
     moves, loose, _ = _board(sp, L, W, None, None)
     rewards = [[(i + 2 * j) % 3 for j in range(W)] for i in range(L)]
+    if float_rewards:      # boards passed in by hand may carry float rewards
+        rewards = [[r + 0.5 for r in row] for row in rewards]
     pt, pr, pl = (sp.real(n, 0, 1, lo_open=True, hi_open=True) for n in ("p_tile", "p_robot", "p_light"))
     FakeFile.store, FakeFile.opened = {}, []
     if sp.mode != "native":
